@@ -258,6 +258,34 @@ def jac_stock(sc):
     ss.j_update(models=models)
     pat2 = _pattern(ss)
     rec["pattern_stable"] = bool(pat1 == pat2)
+    rec["modes_agree"] = True
+    if sc.get("ipadd") == 0 and not sc.get("history") and not sc.get("alter_after_init"):
+        # the two ways of accumulating the Jacobian (in place into the stored pattern / rebuilt) give the same matrices:
+        # same structural entries, same values
+        sc1 = dict(sc, ipadd=1)
+        ss1 = load_case(sc1["case"], config_option=["System.ipadd=1"])
+        ss1.TDS.config.no_tqdm = 1
+        if ss1.PFlow.run():
+            if sc["phase"] == "tds":
+                ss1.TDS.init()
+                m1 = ss1.exist.pflow_tds
+                ss1.TDS.fg_update(m1)
+            else:
+                m1 = ss1.PFlow.models
+                ss1.PFlow.fg_update()
+            ss1.j_update(models=m1)
+            patA = _pattern(ss1)
+            J1 = np.array(matrix(sparse([[ss1.dae.fx, ss1.dae.gx], [ss1.dae.fy, ss1.dae.gy]])))
+            same_pat = patA == pat1
+            same_val = J1.shape == J.shape and bool(np.all(np.abs(J1 - J) <= 1e-12 * (1.0 + np.abs(J))))
+            rec["modes_agree"] = bool(same_pat and same_val)
+            if not rec["modes_agree"]:
+                diff = []
+                for name in ("fx", "fy", "gx", "gy"):
+                    d_ = sorted(patA[name] ^ pat1[name])[:3]
+                    if d_:
+                        diff.append("%s entries only in one mode: %s" % (name, d_))
+                rec["modes_diff"] = diff or ["values differ by %g" % float(np.max(np.abs(J1 - J)))]
     xy0 = np.hstack([np.array(dae.x), np.array(dae.y)])
     bad_cols = []
     skipped = 0
